@@ -136,7 +136,7 @@ SPECS = {
     "C03": _hnd("c03", extra=HNDB_FILES + ["Proofs/HandlerB_Examples.v"]),
     "C04": _hnd("c04", extra=["Proofs/HandlerInv.v", "Proofs/HandlerA_Ledger.v", "Proofs/HandlerA_Nonce.v", "Proofs/HandlerA_Progress.v"]),
     "C13": _hnd("c13", extra=["Proofs/HandlerInv.v"]),
-    "C19": _hnd("c19", extra=HNDB_FILES + ["Proofs/HandlerB_Examples.v"]),
+    "C19": _hnd("c19", extra=HNDB_FILES + ["Proofs/HandlerB_Examples.v", "Proofs/HandlerB_Trace.v", "Proofs/HandlerB_Trace2.v", "Proofs/HandlerB_Trace3.v", "Proofs/HandlerB_TraceEx.v"]),
     "C17": {
         "coq_files": ["Generated/Params.v", "Model/IpVote.v", "Proofs/IpVote.v", "Run/IpVoteRun.v"],
         "runner_vo": "Run/IpVoteRun.v",
